@@ -11,7 +11,11 @@ var registry = map[string]func(tier string) *evid.Report{
 	"C19": C19,
 }
 
+// currentTier is the tier of the running check (also set in worker processes).
+var currentTier = "quick"
+
 func Run(id, tier string) int {
+	currentTier = tier
 	if cr, ok := customRunners[id]; ok {
 		return cr(tier)
 	}
